@@ -8,7 +8,8 @@ def run(tier):
         directed_jobs=lambda s0: [(s0 + 1, dict(nd=2, np=1, copies=2), "directed-linkkinds", 0, directed.link_kinds),
                                   (s0 + 2, dict(nd=2, np=1, copies=2), "directed-restore-after-kill", 0, directed.restore_after_killed_sync),
                                   (s0 + 3, dict(nd=2, np=1, copies=2), "directed-restore-after-kill", 0, directed.restore_after_killed_sync),
-                                  (s0 + 4, dict(nd=2, np=1, copies=2, inomode=True), "directed-twins-swapped", 0, directed.twins_swapped_fix)],
+                                  (s0 + 4, dict(nd=2, np=1, copies=2, inomode=True), "directed-twins-swapped", 0, directed.twins_swapped_fix),
+                                  (s0 + 5, dict(nd=2, np=1, copies=2, inomode=True), "directed-uuid-appears", 0, directed.uuid_appears)],
         shapes=[(2, 2), (3, 1), (2, 1), (4, 2), (3, 3), (1, 1)],
         rule="histories over the full alphabet of changes (create, same-size rewrite, append, truncate, delete, rename within and "
              "between directories incl. onto existing names, move across disks, copy, replacing a file by a directory or link and "
